@@ -106,13 +106,14 @@ func (s *Sched) access(p uintptr, keep interface{}, label, fn string, write bool
 		s.race.sum ^= h.Sum64()
 	}
 	report := func(o *epoch) {
-		a := fmt.Sprintf("%s in %s [%s]", kindOf(o.write), o.where, stripNum(o.who))
-		b := fmt.Sprintf("%s in %s [%s]", kindOf(write), fn, stripNum(me.who))
-		l := []string{a, b}
+		// the signature names the location and the two accessing functions; which threads ran them is scenario
+		// vocabulary and goes into the description only
+		l := []string{fmt.Sprintf("%s in %s", kindOf(o.write), o.where), fmt.Sprintf("%s in %s", kindOf(write), fn)}
 		sort.Strings(l)
 		sig := fmt.Sprintf("%s: %s / %s", label, l[0], l[1])
 		if _, ok := s.race.Races[sig]; !ok {
-			s.race.Races[sig] = fmt.Sprintf("unordered conflicting accesses to %s: %s and %s (no happens-before path: no channel operation, goroutine start or timer arming orders them)", label, a, b)
+			s.race.Races[sig] = fmt.Sprintf("unordered conflicting accesses to %s: %s in %s by thread %s and %s in %s by thread %s (no happens-before path: no channel operation, goroutine start or timer arming orders them)",
+				label, kindOf(o.write), o.where, stripNum(o.who), kindOf(write), fn, stripNum(me.who))
 		}
 	}
 	if sh.w != nil && !s.hb(sh.w, t) {
